@@ -1,6 +1,6 @@
 /* Writer process for the crash-point enumeration (C09), in C so that it
  * starts in a millisecond: runs one transaction with real SQLite.
- * usage: crashwriter <db> <journal_mode> <cache_size> <file with one statement per line> [synchronous: FULL (default), NORMAL, OFF, EXTRA]
+ * usage: crashwriter <db> <journal_mode> <cache_size> <file with one statement per line> [synchronous: FULL (default), NORMAL, OFF, EXTRA] [journal_size_limit]
  */
 #include <sqlite3.h>
 #include <stdio.h>
@@ -18,7 +18,7 @@ static void run(sqlite3 *db, const char *sql, int must) {
 }
 
 int main(int argc, char **argv) {
-  if (argc != 5 && argc != 6) return 2;
+  if (argc < 5 || argc > 7) return 2;
   sqlite3 *db;
   /* argv[1] may be a file: URI (e.g. file:/path?psow=0 for a 4096 byte sector size) */
   if (sqlite3_open_v2(argv[1], &db, SQLITE_OPEN_READWRITE | SQLITE_OPEN_URI, 0) != SQLITE_OK) return 3;
@@ -27,8 +27,12 @@ int main(int argc, char **argv) {
   run(db, buf, 1);
   snprintf(buf, sizeof buf, "PRAGMA cache_size=%s", argv[3]);
   run(db, buf, 1);
-  snprintf(buf, sizeof buf, "PRAGMA synchronous=%s", argc == 6 ? argv[5] : "FULL");
+  snprintf(buf, sizeof buf, "PRAGMA synchronous=%s", argc >= 6 ? argv[5] : "FULL");
   run(db, buf, 1);
+  if (argc == 7) {
+    snprintf(buf, sizeof buf, "PRAGMA journal_size_limit=%s", argv[6]);
+    run(db, buf, 1);
+  }
   run(db, "BEGIN", 1);
   FILE *f = fopen(argv[4], "r");
   if (!f) return 3;
